@@ -81,11 +81,13 @@ class Actor(object):
         self.fc = build_format_checker(world.get("formats"), self.collab)
         if shared_from is None:
             root = copy.deepcopy(world["root"])
-            store = dict((u, copy.deepcopy(world["docs"][u])) for u in store_urls)
+            keys = world.get("store_keys") or {}
+            store = dict((keys.get(u, u), copy.deepcopy(world["docs"][u])) for u in store_urls)
         else:
             # same schema *object* and same read-only store documents, separate resolver
             root = shared_from.root
-            store = dict((u, shared_from.resolver.store[u]) for u in store_urls)
+            keys = world.get("store_keys") or {}
+            store = dict((keys.get(u, u), shared_from.resolver.store[u]) for u in store_urls)
         self.root = root
         handlers = dict((s, self.transport.handler) for s in cfg.get("handler_schemes", ()))
         holder = []
@@ -120,6 +122,9 @@ class Actor(object):
         holder.append(resolver)
         self.resolver = resolver
         self.validator = self.cls(root, resolver=resolver, format_checker=self.fc)
+        # further validators that share this resolver (used sequentially; C15: fetch counts are per resolver)
+        self.validators = [self.validator] + [
+            self.cls({"$ref": r}, resolver=resolver, format_checker=self.fc) for r in cfg.get("extra_validators", ())]
         self.scope0 = resolver.resolution_scope
         self.root0 = fast(root)
         self.store0 = self.store_snapshot()
@@ -129,7 +134,14 @@ class Actor(object):
 
     # ---- observation helpers -------------------------------------------
     def store_snapshot(self):
-        return dict((k, fast(v)) for k, v in self.resolver.store.items())
+        out = {}
+        st = self.resolver.store
+        for k in list(st):
+            try:
+                out[k] = fast(st[k])
+            except KeyError:
+                out[k] = "<key listed but not readable>"   # observation must not crash the harness
+        return out
 
     def depth(self):
         """Reach probe only (private read)."""
@@ -171,9 +183,9 @@ class Actor(object):
 class IterTask(object):
     """A live error iterator of one actor, steppable one next() at a time."""
 
-    def __init__(self, actor, instance):
+    def __init__(self, actor, instance, validator=None):
         self.actor = actor
-        self.it = actor.validator.iter_errors(instance)
+        self.it = (validator or actor.validator).iter_errors(instance)
         self.errs = []
         self.done = False
         self.exc = None
@@ -230,7 +242,7 @@ class IterTask(object):
 
 def do_op(actor, op, instances):
     """Execute one operation on an actor; return its canonical outcome (a dict)."""
-    v = actor.validator
+    v = actor.validators[op.get("v", 0) % len(actor.validators)]
     r = actor.resolver
     kind = op["op"]
     actor.activate()
@@ -244,14 +256,14 @@ def do_op(actor, op, instances):
         if kind == "is_valid":
             out = {"k": "bool", "v": bool(v.is_valid(inst))}
         elif kind == "exhaust":
-            t = IterTask(actor, inst)
+            t = IterTask(actor, inst, v)
             t.take(10 ** 6)
             out = t.outcome()
         elif kind == "validate":
             v.validate(inst)
             out = {"k": "none"}
         elif kind in ("take_close", "take_drop", "take_cycle"):
-            t = IterTask(actor, inst)
+            t = IterTask(actor, inst, v)
             t.take(op["k"])
             d = actor.depth()
             if t.suspended():
